@@ -32,6 +32,17 @@ func init() {
 	Theory["smear"] = TheoryFn{SMT: "smear64", Ret: "Int", RetBV: "(_ BitVec 64)", RetT: typU64}
 	// g2vecValid(bytes, n): the 96n bytes at the start of the slice are canonical encodings of n points of G2 (int mode)
 	Theory["g2vecValid"] = TheoryFn{SMT: "g2vecValid", HeapArg: "byte", Ret: "Bool", RetT: types.Typ[types.Bool]}
+	// big-endian bytes of a 64-bit value (int mode): bebyte(v, m) is byte m (0 = most significant), bytelen(v) the
+	// minimal number of bytes (at least 1) -- the "n" of SP 800-185 left_encode / right_encode
+	Theory["bebyte"] = TheoryFn{SMT: "bebyte", Ret: "Int", RetT: types.Typ[types.Uint8]}
+	Theory["bytelen"] = TheoryFn{SMT: "bytelen", Ret: "Int", RetT: typInt}
+	// cSHAKE / KMAC (int mode): abstract sponge states of x/crypto's ShakeHash
+	Theory["seqid"] = TheoryFn{SMT: "seqid", HeapArg: "byte", Ret: "Int", RetT: typInt}
+	Theory["rencSeq"] = TheoryFn{SMT: "rencSeq", Ret: "Int", RetT: typInt}
+	Theory["cshakeNew"] = TheoryFn{SMT: "cshakeNew", Ret: "Int", RetT: typInt}
+	Theory["shAbsorb"] = TheoryFn{SMT: "shAbsorb", Ret: "Int", RetT: typInt}
+	Theory["shInit"] = TheoryFn{SMT: "shInit", Ret: "Int", RetT: typInt}
+	Theory["shOut"] = TheoryFn{SMT: "shOut", Ret: "Int", RetT: types.Typ[types.Uint8]}
 	// ChaCha20 (int mode only): ks(sid, i) is byte i of the keystream of stream sid;
 	// chachaStream(key, nonce) names the stream of a 32-byte key and a 12-byte nonce by their contents.
 	Theory["ks"] = TheoryFn{SMT: "ks", Ret: "Int", RetT: types.Typ[types.Uint8]}
@@ -76,6 +87,34 @@ func TheoryPrelude(m Mode) string {
 		fmt.Fprintf(&b, "(define-fun be64 ((h %s) (s Slice)) Int (+ %s))\n", hs, strings.Join(be, " "))
 		fmt.Fprintf(&b, "(define-fun le64z ((h %s) (s Slice) (n Int)) Int (+ %s))\n", hs, strings.Join(lez, " "))
 		b.WriteString("(declare-fun smear64 (Int) Int)\n")
+		pw := "1"
+		for m := 6; m >= 0; m-- {
+			pw = fmt.Sprintf("(ite (= m %d) %s %s)", m, pow2(8*(7-m)).String(), pw)
+		}
+		fmt.Fprintf(&b, "(declare-fun bebyte (Int Int) Int)\n(assert (forall ((v Int) (m Int)) (! (= (bebyte v m) (mod (div v %s) 256)) :pattern ((bebyte v m)))))\n", pw)
+		bl := "8"
+		for n := 7; n >= 1; n-- {
+			bl = fmt.Sprintf("(ite (< v %s) %d %s)", pow2(8*n).String(), n, bl)
+		}
+		fmt.Fprintf(&b, "(declare-fun bytelen (Int) Int)\n(assert (forall ((v Int)) (! (= (bytelen v) %s) :pattern ((bytelen v)))))\n", bl)
+		// sequences of bytes as abstract values: short ones (<= 9 bytes) by content, longer ones by location
+		b.WriteString("(declare-fun seq9 (Int Int Int Int Int Int Int Int Int Int) Int)\n(declare-fun seqidA ((Array Int Int) Int Int) Int)\n")
+		var sb []string
+		for k := 0; k < 9; k++ {
+			sb = append(sb, fmt.Sprintf("(ite (< %d (sl.len s)) (select (select h (p.obj (sl.ptr s))) (+ (p.off (sl.ptr s)) %d)) 0)", k, k))
+		}
+		fmt.Fprintf(&b, "(define-fun seqid ((h %s) (s Slice)) Int (ite (<= (sl.len s) 9) (seq9 (sl.len s) %s) (seqidA (select h (p.obj (sl.ptr s))) (p.off (sl.ptr s)) (sl.len s))))\n", hs, strings.Join(sb, " "))
+		var rb []string
+		for k := 0; k < 9; k++ {
+			rb = append(rb, fmt.Sprintf("(ite (< %d (bytelen v)) (bebyte v (+ (- 8 (bytelen v)) %d)) (ite (= %d (bytelen v)) (bytelen v) 0))", k, k, k))
+		}
+		fmt.Fprintf(&b, "(define-fun rencSeq ((v Int)) Int (seq9 (+ (bytelen v) 1) %s))\n", strings.Join(rb, " "))
+		b.WriteString("(declare-fun seqOfStr (Str) Int)\n")
+		b.WriteString("(declare-fun cshakeNew (Int Int) Int)\n(declare-fun shAbsorb (Int Int) Int)\n(declare-fun shInit (Int) Int)\n(declare-fun shOut (Int Int) Int)\n")
+		b.WriteString("(assert (forall ((s Int) (x Int)) (! (= (shInit (shAbsorb s x)) (shInit s)) :pattern ((shAbsorb s x)))))\n")
+		b.WriteString("(assert (forall ((n Int) (c Int)) (! (= (shInit (cshakeNew n c)) (cshakeNew n c)) :pattern ((cshakeNew n c)))))\n")
+		b.WriteString("(assert (forall ((s Int)) (! (= (shInit (shInit s)) (shInit s)) :pattern ((shInit s)))))\n")
+		b.WriteString("(assert (forall ((s Int) (k Int)) (! (and (<= 0 (shOut s k)) (<= (shOut s k) 255)) :pattern ((shOut s k)))))\n")
 		b.WriteString("(declare-fun g2vecValidA ((Array Int Int) Int Int) Bool)\n")
 		fmt.Fprintf(&b, "(define-fun g2vecValid ((h %s) (s Slice) (n Int)) Bool (g2vecValidA (select h (p.obj (sl.ptr s))) (p.off (sl.ptr s)) n))\n", hs)
 		b.WriteString("(declare-fun ks (Int Int) Int)\n(declare-fun xor8 (Int Int) Int)\n")
@@ -94,7 +133,49 @@ func TheoryPrelude(m Mode) string {
 		fmt.Fprintf(&b, "(define-fun chachaStream ((h %s) (k Slice) (n Slice)) Int (stream44 %s))\n", hs, strings.Join(args, " "))
 	}
 	b.WriteString(extraTheory[m.BV])
+	if !noLemmas {
+		b.WriteString(lemmaText(m))
+	}
 	return b.String()
 }
 
 var extraTheory = map[bool]string{}
+
+var noLemmas bool
+
+// Lemma is a spec-level fact proved once per run (against the bare theory) and then available as an
+// assertion in every verification condition of the same mode.
+type Lemma struct {
+	Name  string
+	BV    bool
+	SMT   string // closed formula
+	Props []string
+}
+
+var Lemmas []Lemma
+
+func init() {
+	// a 64-bit value is below 256^n exactly when its 8-n most significant big-endian bytes are zero
+	for n := 1; n <= 7; n++ {
+		var zs []string
+		for k := 0; k < 8-n; k++ {
+			zs = append(zs, fmt.Sprintf("(= (bebyte v %d) 0)", k))
+		}
+		Lemmas = append(Lemmas, Lemma{
+			Name:  fmt.Sprintf("bebyte-threshold-%d", n),
+			SMT:   fmt.Sprintf("(forall ((v Int)) (! (=> (and (<= 0 v) (< v 18446744073709551616)) (= (< v %s) %s)) :pattern ((bytelen v))))", pow2(8*n).String(), sAnd(zs...)),
+			Props: []string{"C13"},
+		})
+	}
+}
+
+// lemmaText returns the lemmas of mode m as assertions (they are proved separately by every run that uses them).
+func lemmaText(m Mode) string {
+	var b strings.Builder
+	for _, l := range Lemmas {
+		if l.BV == m.BV {
+			b.WriteString("(assert " + l.SMT + ")\n")
+		}
+	}
+	return b.String()
+}
